@@ -150,7 +150,115 @@ func GenPool(r *Rng, n int, ics []string) []string {
 			add(strings.TrimSuffix(root, "/") + "-" + pick(r, tok1) + pick(r, tails))
 		}
 	}
+	// near misses: a pooled pattern with every parameter renamed and exactly one other difference (a
+	// literal byte, one byte more or less of literal text, another rule): not identical up to names, so
+	// both must be accepted, and they compete for the same paths
+	if r.Pct(22) {
+		base := append([]string{}, pool...)
+		for k := r.Range(1, 2); k > 0 && len(base) > 0; k-- {
+			if nm := nearMiss(r, pick(r, base), ics); nm != "" {
+				n++
+				add(nm)
+			}
+		}
+		if r.Pct(50) {
+			shuffle(r, pool) // the near miss is not always registered after its model
+		}
+	}
 	return pool
+}
+
+// nearMiss: see GenPool.  "" when the pattern has no parameter or the draw produced nothing usable.
+func nearMiss(r *Rng, raw string, ics []string) string {
+	p, ok := ParsePattern(raw, ics)
+	if !ok {
+		return ""
+	}
+	toks := append([]Token{}, p.Tokens...)
+	var params, lits []int
+	for i, t := range toks {
+		if t.Kind == PLit {
+			lits = append(lits, i)
+		} else {
+			params = append(params, i)
+		}
+	}
+	if len(params) == 0 {
+		return ""
+	}
+	swapByte := func(b byte) byte {
+		alt := "abcdefg"
+		if strings.IndexByte("/-._", b) >= 0 {
+			alt = "/-._"
+		}
+		for {
+			if c := alt[r.Intn(len(alt))]; c != b {
+				return c
+			}
+		}
+	}
+	last := len(toks) - 1
+	switch r.Intn(5) {
+	case 0: // another byte right after a parameter
+		i := pick(r, params)
+		if i == last {
+			toks = append(toks, Token{Kind: PLit, Text: pick(r, []string{"/", "-m", "/a", ".html"})})
+		} else {
+			t := []byte(toks[i+1].Text)
+			t[0] = swapByte(t[0])
+			toks[i+1].Text = string(t)
+		}
+	case 1: // another byte somewhere in a literal
+		i := pick(r, lits)
+		t := []byte(toks[i].Text)
+		j := r.Intn(len(t))
+		if t[j] >= 0x80 || (i == 0 && j == 0) {
+			return ""
+		}
+		t[j] = swapByte(t[j])
+		toks[i].Text = string(t)
+	case 2: // one byte more at the end
+		if toks[last].Kind == PLit {
+			toks[last].Text += pick(r, []string{"a", "b", "/", "c"})
+		} else {
+			toks = append(toks, Token{Kind: PLit, Text: pick(r, []string{"/", "/a", "-m"})})
+		}
+	case 3: // one byte less at the end
+		if toks[last].Kind != PLit || len(toks[last].Text) < 2 || toks[last].Text[len(toks[last].Text)-1] >= 0x80 {
+			return ""
+		}
+		toks[last].Text = toks[last].Text[:len(toks[last].Text)-1]
+	case 4: // another rule
+		i := pick(r, params)
+		rules := []string{"", `\d+`, `[a-z]+`, `[0-9]+`, `\d*`}
+		for _, ic := range ics {
+			if ic != "any" {
+				rules = append(rules, ic)
+			}
+		}
+		nr := pick(r, rules)
+		if nr == toks[i].Rule {
+			return ""
+		}
+		toks[i].Rule = nr
+	}
+	var sb strings.Builder
+	for _, t := range toks {
+		if t.Kind == PLit {
+			sb.WriteString(t.Text)
+			continue
+		}
+		name := t.Name + "n"
+		if t.Ignore != r.Pct(15) {
+			name = "-" + name
+		}
+		if t.Rule != "" {
+			sb.WriteString("{" + name + ":" + t.Rule + "}")
+		} else {
+			sb.WriteString("{" + name + "}")
+		}
+	}
+	return sb.String()
 }
 
 // GenICs draws an interceptor set.
@@ -213,7 +321,7 @@ func GenPaths(r *Rng, pats []*Pattern, n int) []string {
 			paths = append(paths, w)
 		case 6:
 			w, _ := p.Witness(r)
-			paths = append(paths, w+pick(r, []string{"/", "x", "/log", ".html", "/1", "-x"}))
+			paths = append(paths, w+pick(r, []string{"/", "x", "/log", ".html", "/1", "-m"}))
 		case 7:
 			w, _ := p.Witness(r)
 			if len(w) > 1 {
